@@ -24,7 +24,8 @@ RULE = ("configurations: epochs 0-3 x 1-4 training batches of size 2-5 x validat
         "reference count.  non-trivial: epochs >= 2 with a validation loader and a model containing both Dropout "
         "and BatchNorm; distinct by hash of the configuration"
         " Also: list loaders with unequal batch sizes, a second fit() on the same Trainer (other epoch count, validation swapped), a child switched back to training mode before test()."
-        " Round 6: a Trainer compiled twice (the second time without the evaluator).")
+        " Round 6: a Trainer compiled twice (the second time without the evaluator)."
+        " Round 7: models of two inputs fed (x_a, x_b, labels) batches.")
 ASSUMPTIONS = ["batches of one sample and loaders without batches are not generated (Evaluator.step squeezes a "
                "single-sample batch to rank 1, which no reading of the statement can decode)",
                "pkbar (progress bar) is replaced by a stand-in when it cannot be imported; it carries no semantics"]
